@@ -85,6 +85,7 @@ def regen_tables():
     from . import tables
     text, errors = tables.generate()
     path = os.path.join(THEORIES, 'Gen', 'Tables.v')
+    os.makedirs(os.path.dirname(path), exist_ok=True)     # a fresh clone has no Gen/ (its only file is generated)
     with build_lock():
         old = None
         if os.path.exists(path):
